@@ -183,6 +183,7 @@ inductive ValKind where
   | str     -- string of the decimal digits
   | ptr     -- `*uint64` (compared by pointee, never by address), JSON decimal
   | iface   -- struct with an `interface{}` field holding a slice: `{"X":["<digits>"]}`
+  | nb      -- `[]byte` as above, except 1 is the nil slice (`null`) and 2 the empty slice (`""`)
   | long    -- long string: `<digits>-` and filler; marshaled length 127, 128, 129, 16383, 16384, 16385 (v % 6)
   deriving Repr, DecidableEq, Inhabited
 
@@ -221,6 +222,7 @@ def valBytes (vk : ValKind) (v : Nat) : Bytes :=
   match vk with
   | .u64 => digits v
   | .bytes => quote (b64std (digits v))
+  | .nb => if v = 1 then litNull else if v = 2 then [34, 34] else quote (b64std (digits v))
   | .str => quote (digits v)
   | .ptr => digits v
   | .iface => str "{\"X\":[" ++ quote (digits v) ++ str "]}"
